@@ -26,6 +26,7 @@ with ThreadPoolExecutor(jobs) as ex:
     for name, out in ex.map(run, dirs):
         ck = [v for k, v in out.items() if k.startswith("check_")]
         if ck:
-            print(f"{name}: confirmed={out.get('confirmed')} caught={ck[0]['caught']} wall={ck[0]['wall_s']}s :: {ck[0]['lines'][-1][:150] if ck[0]['lines'] else ''}")
+            verdict = (f"quiet={ck[0].get('quiet')}" if out.get("kind") == "harmless" else f"caught={ck[0]['caught']}")
+            print(f"{name}: {out.get('kind')} confirmed={out.get('confirmed')} {verdict} wall={ck[0]['wall_s']}s :: {ck[0]['lines'][-1][:150] if ck[0]['lines'] else ''}")
         else:
             print(f"{name}: {out}")
